@@ -115,6 +115,9 @@ type Core struct {
 	// FailOnce: like Fails, but only the first invocation fails (transient fault)
 	FailOnce map[string]bool
 	Hook     func(kind string, who Node)
+	// ZeroErr: injected faults are reported with an error of a field-less value type (a sentinel like
+	// `type errNotLeader struct{}`), whose value equals its zero value
+	ZeroErr bool
 	// CloseFn, when set, runs between close-begin and close-end (gates, delays).
 	CloseFn func(who Node)
 }
@@ -126,6 +129,9 @@ func (k *Core) ev(kind string, who Node) error {
 		k.Hook(kind, who)
 	}
 	if k.Fails[kind] {
+		if k.ZeroErr {
+			return zeroErr{}
+		}
 		return errors.New("injected fault: " + kind + " of " + name)
 	}
 	if k.FailOnce[kind] {
@@ -147,6 +153,10 @@ func (k *Core) closeEv(who Node) error {
 	}
 	return nil
 }
+
+type zeroErr struct{}
+
+func (zeroErr) Error() string { return "injected fault (value-typed sentinel error)" }
 
 // Node is implemented by every palette type.
 type Node interface {
